@@ -42,7 +42,7 @@ func c01(tier string) []*explore.Scenario {
 		out = append(out, c01DirectSize(2, env.PipeOpts{Cap: 0, Serialize: ser}, 1, false, 70000))
 	}
 	out = append(out, c01Payloads(po), c01Payloads(env.PipeOpts{Cap: 0}))
-	out = append(out, c01Seq(po))
+	out = append(out, c01Seq(po), c01FailedWrite(2))
 	// the shipped topologies: through a proxy and a demultiplexer (one Serve per client)
 	out = append(out, c16RPCFam("C01", "2unary", false, 1), c16RPCFam("C01", "2unary", true, 1), c16RPCFam("C01", "payloads", true, 0))
 	return out
@@ -140,6 +140,43 @@ func c01Seq(po env.PipeOpts) *explore.Scenario {
 			checkUnary(r0, "x", "C01/direct")
 			checkUnary(r1, "x", "C01/direct")
 			checkUnary(r2, "y", "C01/direct")
+			finishDirect(d, w, true)
+		},
+	}
+}
+
+// c01FailedWrite: call A's request write fails (its context is already done)
+// while call B is in flight with a handler that takes its time; call C starts
+// after A failed; then B's handler is released. B and C each get their own reply.
+func c01FailedWrite(bound int) *explore.Scenario {
+	fam := "C01/direct"
+	return &explore.Scenario{
+		Name: fmt.Sprintf("C01/failed-write-with-others-in-flight/d=%d", bound), Family: fam, Prop: "C01", Bound: bound,
+		Run: func() {
+			w := env.NewWorld()
+			d := env.NewDirect(w, env.DirectOpts{Pipe: env.PipeOpts{Cap: 64}})
+			vsched.Settle()
+			vsched.Explore(true)
+			dead, cancel := context.WithCancel(context.Background())
+			cancel()
+			release := make(chan struct{})
+			a, b, c := w.Rec("a", "Unary"), w.Rec("b", "Unary"), w.Rec("c", "Unary")
+			w.Unaries["b"] = func(r *env.Rec, ctx context.Context, in string) (string, error) {
+				<-release
+				return "R:" + in, nil
+			}
+			vsched.GoNamed("caller-a", func() { w.CallUnary(d.CC, dead, a, "x") })
+			vsched.GoNamed("caller-b", func() { w.CallUnary(d.CC, context.Background(), b, "x") })
+			vsched.Quiesce()
+			vsched.GoNamed("caller-c", func() { w.CallUnary(d.CC, context.Background(), c, "y") })
+			vsched.Quiesce()
+			close(release)
+			vsched.Quiesce()
+			if !a.CDone || a.CErr == nil {
+				vsched.Fail(fam+"|dead-call", "the call with a dead context: done=%v err=%v", a.CDone, a.CErr)
+			}
+			checkUnary(b, "x", fam)
+			checkUnary(c, "y", fam)
 			finishDirect(d, w, true)
 		},
 	}
